@@ -336,6 +336,12 @@ impl<LeafData: IndexedData> Qbvh<LeafData> {
             core::mem::swap(&mut self.dirty_nodes, &mut workspace.dirty_parent_nodes);
         }
 
+        // Keep the root Aabb (`Qbvh::root_aabb`) in sync with the root node, as
+        // `clear_and_rebuild` and `rebalance` do.
+        if let Some(root) = self.nodes.first() {
+            self.root_aabb = root.simd_aabb.to_merged_aabb();
+        }
+
         num_changed
     }
 
